@@ -267,6 +267,12 @@ def contains(I, coll, x, node=None):
     """x in coll -> z3 Bool / python bool"""
     if isinstance(coll, SymColl):
         return coll.contains(x)
+    if isinstance(coll, PySet) and coll.sym:
+        parts = [contains(I, PySet(list(coll.items)), x, node)] + [c.contains(x) for c in coll.sym]
+        parts = [p_ for p_ in parts if p_ is not False]
+        if any(p_ is True for p_ in parts):
+            return True
+        return z3.Or(*parts) if parts else False
     if isinstance(coll, (PyList, tuple, PySet)):
         items = coll.items if not isinstance(coll, tuple) else list(coll)
         ts = []
@@ -722,6 +728,14 @@ def _to_int(I, v, node=None):
 
 
 def _to_float(I, v, node=None):
+    if isinstance(v, str):
+        try:
+            f = float(v)
+        except ValueError:
+            I.raise_("ValueError", node)
+        if math.isinf(f) and INF_SYMBOL is not None:
+            return SymV(INF_SYMBOL if f > 0 else -INF_SYMBOL, "real")
+        return f
     if isinstance(v, SymV):
         if v.ty in ("int", "real", "bool"):
             return mk(rval(v), "real")
@@ -930,6 +944,38 @@ def _m_type(I, b, a, kw, node):
     raise EngineLimit(f"type({v!r})")
 
 
+@ext("builtins.getattr")
+def _m_getattr(I, b, a, kw, node):
+    from .interp import PyExc
+    obj, name = a[0], a[1]
+    if not isinstance(name, str):
+        raise EngineLimit("getattr with a non-literal name")
+    try:
+        return I.getattr_value(obj, name, node)
+    except PyExc as e:
+        if e.kind == "AttributeError" and len(a) > 2:
+            return a[2]
+        raise
+
+
+@ext("builtins.hasattr")
+def _m_hasattr(I, b, a, kw, node):
+    from .interp import PyExc
+    try:
+        I.getattr_value(a[0], a[1], node)
+        return True
+    except PyExc as e:
+        if e.kind == "AttributeError":
+            return False
+        raise
+
+
+@ext("builtins.setattr")
+def _m_setattr(I, b, a, kw, node):
+    I.setattr_value(a[0], a[1], a[2])
+    return None
+
+
 @ext("builtins.print")
 def _m_print(I, b, a, kw, node):
     return None
@@ -1125,6 +1171,26 @@ def _m_sadd(I, b, a, kw, node):
         b.items.append(a[0])
 
 
+@ext("set.update")
+def _m_supdate(I, b, a, kw, node):
+    if isinstance(b, SymColl):
+        I.ctx.writes.append(("set", b))
+        return None
+    if not b.fresh:
+        I.ctx.writes.append(("set", b))
+    for x in a:
+        if isinstance(x, SymColl):
+            b.sym.append(x)
+        elif isinstance(x, PySet) and x.sym:
+            b.sym.extend(x.sym)
+            for y in x.items:
+                _m_sadd(I, b, [y], {}, node)
+        else:
+            for y in I.iter_concrete(x):
+                _m_sadd(I, b, [y], {}, node)
+    return None
+
+
 @ext("set.copy")
 def _m_scopy(I, b, a, kw, node):
     s = PySet(list(b.items))
@@ -1209,10 +1275,25 @@ def _m_flatten(I, b, a, kw, node):
     return NpArr(cell)
 
 
+@ext("numpy.empty")
+def _m_empty(I, b, a, kw, node):
+    shape = _shape_of(I, a[0] if a else kw["shape"])
+    c = I.new_cell("empty", shape, fresh=True, zero=False)
+    return NpArr(c)
+
+
 @ext("numpy.random.rand")
 def _m_rand(I, b, a, kw, node):
     if a:
-        raise EngineLimit("rand with shape")
+        if len(a) != 1:
+            raise EngineLimit("rand with a multi-dimensional shape")
+        # a batch of draws: every cell an independent uniform in [0,1); counted as len draws
+        n = a[0]
+        c = I.new_cell("Ubatch", (ival(n) if is_sym(n) else n,), fresh=True)
+        k = z3.Int("_ub_k")
+        I.ctx.assume(z3.ForAll([k], z3.And(z3.Select(c.content, k) >= 0, z3.Select(c.content, k) < 1)))
+        I.ctx.draws.append(("rand-batch", n))
+        return NpArr(c)
     u = I.ctx.fresh("U", z3.RealSort())
     I.ctx.assume(z3.And(u >= 0, u < 1))      # assumed NumPy contract: rand() in [0, 1)
     I.ctx.draws.append(("rand", u))
